@@ -67,6 +67,8 @@ def dump_layout(r, name):
     L.append("def cert_%s : Bool := gapCert %d %d (fun a => row asm_%s %d %d a) (fun a s => ent side_%s %d 6 a s)\n"
              "  (fun a s => get? nbr_%s %d 6 a s) (fun a => ent own_%s %d 1 a 0) (fun c => row adj_%s %d 3 c)\n"
              % (name, nasm, nsc, name, W, ncol, name, W, name, W, name, W, name, W))
+    # one kernel decision per layout: the memory of one evaluation is released before the next starts
+    L.append("set_option maxRecDepth 1000000 in\ntheorem cert_%s_ok : cert_%s = true := by decide +kernel\n" % (name, name))
     ok = tb.roundtrip_ok(asm_tab, W, 0) and tb.roundtrip_ok(core._sc_adj, W, 0)
     return "\n".join(L), ok
 
@@ -165,7 +167,8 @@ def run(ctx):
     for k in range(NCHUNK):
         body = header + ["namespace Dassh.Gen.C09_%d" % k, "open Dassh.Table", ""] + chunks[k]
         body.append("def certs : List Bool := [%s]\n" % ", ".join("cert_%s" % n for n in chunk_names[k]))
-        body.append("set_option maxRecDepth 1000000 in\ntheorem certs_ok : certs.all (· = true) = true := by decide +kernel\n")
+        body.append("theorem certs_ok : certs.all (· = true) = true := by\n  simp only [certs, List.all_cons, List.all_nil, decide_true, Bool.and_self%s]\n"
+                    % "".join(", cert_%s_ok" % n for n in chunk_names[k]))
         body.append("end Dassh.Gen.C09_%d\n" % k)
         ctx.gen("C09_%d" % k, "\n".join(body))
     agg = ["-- GENERATED: collects the per-chunk layout certificates."] + ["import Dassh.Gen.C09_%d" % k for k in range(NCHUNK)]
